@@ -1,7 +1,7 @@
 """C13 configuration for ./check (see lib/props.py)."""
 
 CFG = {
-    "modules": ["HumphreyModel.Props.C13"],
+    "modules": ["HumphreyModel.Props.C13", "HumphreyModel.Props.C13Recognise"],
     "rule": "json_parse: a text fed to humphrey_json::Value::parse, to the Lean model of parser.rs and to the independent "
             "RFC 8259 acceptor `recognise` (Spec/Json.lean); outputs compared as canonical value renderings "
             "(Z/T/F, n+16 hex digits of f64::to_bits, s+hex(UTF-8)+'.', [..], {s.. value ..}; a prefix code, hence "
@@ -55,9 +55,14 @@ CFG = {
                   "indent) for all values with finite numbers; roundtrip and roundtrip_pretty for all such values of "
                   "depth <= 256; number_check_iff_rfc. The model is tied to parser.rs/serialize.rs by two exhaustive "
                   "small scopes plus grammar-directed documents, mutants and generated values, each case also judged by "
-                  "an independent RFC acceptor.",
+                  "an independent RFC acceptor. Props/C13Recognise.lean closes two former trust gaps: "
+                  "recognise_depth_iff_json_text (the executable acceptor that judges the implementation accepts exactly "
+                  "the grammar, with the exact depth) and decCodec_lawful (the driver's number codec satisfies the three "
+                  "codec laws on its normal forms; DecFin is exactly the range of decParse).",
     "level_note": "Trusted: Lean kernel, the RFC transcription in Spec/Json.lean, the harness and driver. The theorems "
                   "are about the model; f64 parsing/printing enters only through the three codec laws, which the run "
-                  "tests against Rust. The acceptor `recognise` is not proved equivalent to JsonText.",
+                  "tests against Rust (decCodec is finer than f64: that f64::from_str/Display is itself a lawful codec "
+                  "remains tested, not proved). Texts flagged as containing an unpaired surrogate escape have no grammar "
+                  "in the spec; model and Rust both reject them (parse_none_of_recognise).",
     "timeout": {"quick": 300, "thorough": 3000},
 }
